@@ -1,0 +1,247 @@
+// This Source Code Form is subject to the terms of the Mozilla Public
+// License, v. 2.0. If a copy of the MPL was not distributed with this
+// file, You can obtain one at http://mozilla.org/MPL/2.0/.
+//
+// Copyright (c) DUSK NETWORK. All rights reserved.
+
+//! Verification seams (only with `--cfg plonk_verif`): thin public wrappers
+//! over crate-private kernels so that an external harness can compare them
+//! with reference definitions. Nothing here changes behaviour.
+
+#![allow(missing_docs)]
+
+use alloc::vec::Vec;
+
+use dusk_bls12_381::BlsScalar;
+
+use crate::commitment_scheme::Commitment;
+use crate::fft::{EvaluationDomain, Evaluations, Polynomial};
+use crate::proof_system::linearization_poly::ProofEvaluations;
+use crate::proof_system::widget;
+
+fn cpoly(s: BlsScalar) -> (Polynomial, Evaluations) {
+    let domain = EvaluationDomain::new(1).expect("domain of size 1");
+    (
+        Polynomial::from_coefficients_vec(vec![s]),
+        Evaluations::from_vec_and_domain(vec![s], domain),
+    )
+}
+
+fn c0(p: &Polynomial) -> BlsScalar {
+    p.first().copied().unwrap_or(BlsScalar::zero())
+}
+
+/// For one row: the prover quotient term, the constant coefficient of the
+/// prover linearisation and the verifier's linearisation scalar(s) combined
+/// with the selector values, for each of the five gate widgets (arithmetic,
+/// range, logic, fixed base, variable base).
+///
+/// `sel` = q_m q_l q_r q_o q_f q_c q_arith q_range q_logic q_fixed q_var,
+/// `ch` = range/logic/fixed/variable separation challenges,
+/// `w` = a b c d, `wn` = a_w b_w d_w.
+pub fn widget_terms(
+    sel: [BlsScalar; 11],
+    ch: [BlsScalar; 4],
+    w: [BlsScalar; 4],
+    wn: [BlsScalar; 3],
+) -> [[BlsScalar; 3]; 5] {
+    let [q_m, q_l, q_r, q_o, q_f, q_c, q_arith, q_range, q_logic, q_fixed, q_var] =
+        sel;
+    let [a, b, c, d] = w;
+    let [a_w, b_w, d_w] = wn;
+    let z = BlsScalar::zero();
+    let ev = ProofEvaluations {
+        a_eval: a,
+        b_eval: b,
+        c_eval: c,
+        d_eval: d,
+        a_w_eval: a_w,
+        b_w_eval: b_w,
+        d_w_eval: d_w,
+        q_arith_eval: q_arith,
+        q_c_eval: q_c,
+        q_l_eval: q_l,
+        q_r_eval: q_r,
+        s_sigma_1_eval: z,
+        s_sigma_2_eval: z,
+        s_sigma_3_eval: z,
+        z_eval: z,
+    };
+    let id = Commitment::default();
+    let dot = |scalars: &[BlsScalar], vals: &[BlsScalar]| {
+        scalars
+            .iter()
+            .zip(vals.iter())
+            .fold(BlsScalar::zero(), |acc, (s, v)| acc + s * v)
+    };
+
+    // arithmetic
+    let pk = widget::arithmetic::ProverKey {
+        q_m: cpoly(q_m),
+        q_l: cpoly(q_l),
+        q_r: cpoly(q_r),
+        q_o: cpoly(q_o),
+        q_f: cpoly(q_f),
+        q_c: cpoly(q_c),
+        q_arith: cpoly(q_arith),
+    };
+    let vk = widget::arithmetic::VerifierKey {
+        q_m: id,
+        q_l: id,
+        q_r: id,
+        q_o: id,
+        q_f: id,
+        q_c: id,
+        q_arith: id,
+    };
+    let (mut sc, mut pt) = (Vec::new(), Vec::new());
+    vk.compute_linearization_commitment(&mut sc, &mut pt, &ev);
+    let arith = [
+        pk.compute_quotient_i(0, &a, &b, &c, &d),
+        c0(&pk.compute_linearization(&ev)),
+        dot(&sc, &[q_m, q_l, q_r, q_o, q_f, q_c]),
+    ];
+
+    // range
+    let pk = widget::range::ProverKey {
+        q_range: cpoly(q_range),
+    };
+    let vk = widget::range::VerifierKey { q_range: id };
+    let (mut sc, mut pt) = (Vec::new(), Vec::new());
+    vk.compute_linearization_commitment(&ch[0], &mut sc, &mut pt, &ev);
+    let range = [
+        pk.compute_quotient_i(0, &ch[0], &a, &b, &c, &d, &d_w),
+        c0(&pk.compute_linearization(&ch[0], &ev)),
+        dot(&sc, &[q_range]),
+    ];
+
+    // logic
+    let pk = widget::logic::ProverKey {
+        q_c: cpoly(q_c),
+        q_logic: cpoly(q_logic),
+    };
+    let vk = widget::logic::VerifierKey {
+        q_c: id,
+        q_logic: id,
+    };
+    let (mut sc, mut pt) = (Vec::new(), Vec::new());
+    vk.compute_linearization_commitment(&ch[1], &mut sc, &mut pt, &ev);
+    let logic = [
+        pk.compute_quotient_i(0, &ch[1], &a, &a_w, &b, &b_w, &c, &d, &d_w),
+        c0(&pk.compute_linearization(&ch[1], &ev)),
+        dot(&sc, &[q_logic]),
+    ];
+
+    // fixed base
+    let pk = widget::ecc::scalar_mul::fixed_base::ProverKey {
+        q_l: cpoly(q_l),
+        q_r: cpoly(q_r),
+        q_c: cpoly(q_c),
+        q_fixed_group_add: cpoly(q_fixed),
+    };
+    let vk = widget::ecc::scalar_mul::fixed_base::VerifierKey {
+        q_l: id,
+        q_r: id,
+        q_fixed_group_add: id,
+    };
+    let (mut sc, mut pt) = (Vec::new(), Vec::new());
+    vk.compute_linearization_commitment(&ch[2], &mut sc, &mut pt, &ev);
+    let fixed = [
+        pk.compute_quotient_i(0, &ch[2], &a, &a_w, &b, &b_w, &c, &d, &d_w),
+        c0(&pk.compute_linearization(&ch[2], &ev)),
+        dot(&sc, &[q_fixed]),
+    ];
+
+    // variable base
+    let pk = widget::ecc::curve_addition::ProverKey {
+        q_variable_group_add: cpoly(q_var),
+    };
+    let vk = widget::ecc::curve_addition::VerifierKey {
+        q_variable_group_add: id,
+    };
+    let (mut sc, mut pt) = (Vec::new(), Vec::new());
+    vk.compute_linearization_commitment(&ch[3], &mut sc, &mut pt, &ev);
+    let var = [
+        pk.compute_quotient_i(0, &ch[3], &a, &a_w, &b, &b_w, &c, &d, &d_w),
+        c0(&pk.compute_linearization(&ch[3], &ev)),
+        dot(&sc, &[q_var]),
+    ];
+
+    [arith, range, logic, fixed, var]
+}
+
+// ---- FFT / polynomial kernels ----
+
+pub fn domain_params(num_coeffs: usize) -> Option<(usize, BlsScalar, BlsScalar)> {
+    EvaluationDomain::new(num_coeffs)
+        .ok()
+        .map(|d| (d.size(), d.group_gen, d.size_inv))
+}
+
+pub fn fft(num_coeffs: usize, v: &[BlsScalar], kind: u8) -> Option<Vec<BlsScalar>> {
+    let d = EvaluationDomain::new(num_coeffs).ok()?;
+    Some(match kind {
+        0 => d.fft(v),
+        1 => d.ifft(v),
+        2 => d.coset_fft(v),
+        _ => d.coset_ifft(v),
+    })
+}
+
+pub fn serial_fft(v: &[BlsScalar], omega: BlsScalar, log_n: u32) -> Vec<BlsScalar> {
+    let mut a = v.to_vec();
+    crate::fft::domain::alloc::serial_fft(&mut a, omega, log_n);
+    a
+}
+
+pub fn poly_op(op: u8, a: &[BlsScalar], b: &[BlsScalar], s: BlsScalar) -> Vec<BlsScalar> {
+    let pa = Polynomial::from_coefficients_vec(a.to_vec());
+    let pb = Polynomial::from_coefficients_vec(b.to_vec());
+    let r = match op {
+        0 => &pa + &pb,
+        1 => &pa - &pb,
+        2 => &pa * &pb,
+        3 => &pa * &s,
+        4 => pa.ruffini(s),
+        5 => &pa + &s,
+        6 => &pa - &s,
+        _ => {
+            return vec![pa.evaluate(&s)];
+        }
+    };
+    r.to_vec()
+}
+
+pub fn batch_inversion(v: &[BlsScalar]) -> Vec<BlsScalar> {
+    let mut v = v.to_vec();
+    crate::util::batch_inversion(&mut v);
+    v
+}
+
+pub fn lagrange_all(num_coeffs: usize, tau: BlsScalar) -> Option<Vec<BlsScalar>> {
+    let d = EvaluationDomain::new(num_coeffs).ok()?;
+    Some(d.evaluate_all_lagrange_coefficients(tau))
+}
+
+pub fn vanishing_eval(num_coeffs: usize, tau: BlsScalar) -> Option<BlsScalar> {
+    let d = EvaluationDomain::new(num_coeffs).ok()?;
+    Some(d.evaluate_vanishing_polynomial(&tau))
+}
+
+pub fn vanishing_over_coset(num_coeffs: usize, degree: u64) -> Option<Vec<BlsScalar>> {
+    let d = EvaluationDomain::new(num_coeffs).ok()?;
+    Some(d.compute_vanishing_poly_over_coset(degree).evals)
+}
+
+pub fn barycentric_eval(
+    num_coeffs: usize,
+    evaluations: &[BlsScalar],
+    point: BlsScalar,
+) -> Option<BlsScalar> {
+    let d = EvaluationDomain::new(num_coeffs).ok()?;
+    Some(crate::proof_system::proof::alloc::compute_barycentric_eval(
+        evaluations,
+        &point,
+        &d,
+    ))
+}
